@@ -59,10 +59,13 @@ static int all_texts(const char *alpha, int na, int maxlen)
 }
 
 /* k legal units (mix selects plain/escaped per unit) then every possible next byte, with and without a closing quote */
+static int g_lite;
 static int structured(cat_var_type t, int ds)
 {
         uint8_t s[400];
         for (int k = 0; k <= ds + 1; k++) {
+                /* lite (quick sanitizer tier): for large buffers only the unit counts around the limits */
+                if (g_lite && ds >= 16 && k > 1 && k < ds - 1) continue;
                 int nmix = (ds <= 6) ? (1 << k) : 3;
                 if (t == CAT_VAR_BUF_HEX) nmix = (k == 0) ? 1 : 2;       /* digit case */
                 for (int mi = 0; mi < nmix; mi++) {
@@ -106,6 +109,7 @@ int main(int argc, char **argv)
 {
         sw_init(argc, argv, "buffers");
         int lite = sw_argi(argc, argv, "--lite", 0);
+        g_lite = lite;
         static const int DS[] = {1, 2, 3, 4, 5, 6, 7, 8, 16, 63, 64};
         int idx = 0;
         for (int ti = 0; ti < 2; ti++) {
